@@ -475,6 +475,63 @@ func genSelect(r *repo) string {
 		}
 	}
 
+	// runLowLatency: what happens when the reloaded playlist carries no preload hint.
+	//   repaired (fix-F28):  if pl.PreloadHint == nil { if COND { d.segmentQueue.push(nil); <-ctx.Done(); return … }; return "preload hint disappeared" }
+	//   upstream:            if pl.PreloadHint == nil { return "preload hint disappeared" }
+	// llEndOfStream = COND (false for the upstream shape): the loop ends the stream instead of failing.
+	{
+		const fn = "runLowLatency"
+		fd := p.mustFunc("clientStreamDownloader", fn)
+		g.t.where = fn
+		var noHint *ast.IfStmt
+		n := 0
+		ast.Inspect(fd.Body, func(nd ast.Node) bool {
+			if is, ok := nd.(*ast.IfStmt); ok && selPrint(is.Cond) == "pl.PreloadHint == nil" {
+				noHint = is
+				n++
+			}
+			return true
+		})
+		if n != 1 || noHint.Init != nil || noHint.Else != nil {
+			fatalf("%s: expected exactly one `if pl.PreloadHint == nil { … }`", fn)
+		}
+		isErrorf := func(st ast.Stmt, msg string) bool {
+			ret, ok := st.(*ast.ReturnStmt)
+			if !ok || len(ret.Results) != 1 {
+				return false
+			}
+			c, ok := ret.Results[0].(*ast.CallExpr)
+			if !ok || selPrint(c.Fun) != "fmt.Errorf" || len(c.Args) != 1 {
+				return false
+			}
+			s, ok := strLit(c.Args[0])
+			return ok && s == msg
+		}
+		body := noHint.Body.List
+		cond := "false"
+		switch {
+		case len(body) == 1 && isErrorf(body[0], "preload hint disappeared"):
+			// upstream shape: no end-of-stream path (defect F28)
+		case len(body) == 2 && isErrorf(body[1], "preload hint disappeared"):
+			inner, ok := body[0].(*ast.IfStmt)
+			if !ok || inner.Init != nil || inner.Else != nil || len(inner.Body.List) != 3 {
+				g.fail(fn, body[0], "end-of-stream branch")
+			}
+			push, ok1 := inner.Body.List[0].(*ast.ExprStmt)
+			wait, ok2 := inner.Body.List[1].(*ast.ExprStmt)
+			if !ok1 || !ok2 || selPrint(push.X) != "d.segmentQueue.push(nil)" || selPrint(wait.X) != "<-ctx.Done()" ||
+				!isErrorf(inner.Body.List[2], "terminated") {
+				g.fail(fn, inner, "end-of-stream branch must be push(nil); <-ctx.Done(); return terminated")
+			}
+			cond = g.t.expr(selRewrite(inner.Cond, map[string]string{"pl.Endlist": "plEndlist"}))
+		default:
+			g.fail(fn, noHint, "body of the missing-hint branch")
+		}
+		b.WriteString("/-- `runLowLatency`, reloaded playlist without preload hint: `true` = push the nil end-of-stream marker\n")
+		b.WriteString("    and park (ErrClientEOS once every stream ended), `false` = \"preload hint disappeared\" -/\n")
+		b.WriteString("def llEndOfStream (plEndlist : Bool) : Bool := " + cond + "\n\n")
+	}
+
 	b.WriteString("end Hls.Gen.Select\n")
 	return b.String()
 }
